@@ -325,7 +325,7 @@ func checkESRCH(c *Check, handle *ssa.Function) {
 			c.Undecided("2/vanished-tracee", key, p.Pos(iff.Pos()), "cannot find the producer of the compared error")
 			continue
 		}
-		wraps := errorWrapped(prod, 3)
+		wraps := errorWrapped(prod, 6)
 		c.Cond(len(wraps) == 0, "2/vanished-tracee", key+":raw-error("+prod.Name()+")", p.Pos(bo.Pos()), "the compared error is the ptrace primitive's own errno",
 			"the error compared with ESRCH by == may be wrapped ("+strings.Join(wraps, ", ")+"): a vanished tracee is then reported as a runner or policy error instead of falling back to wait4")
 	}
@@ -349,7 +349,10 @@ func checkESRCH(c *Check, handle *ssa.Function) {
 					return avInt(p.Unix("PTRACE_EVENT_SECCOMP"))
 				}
 				if callee != nil && inModule(callee) && callee.Signature.Results().Len() == 1 && isErrorType(callee.Signature.Results().At(0).Type()) {
-					isOpt := reachesCall(callee, 1, func(ci ssa.CallInstruction) bool { nn, _ := calleeOf(ci); return strings.HasSuffix(nn, ".PtraceSetOptions") })
+					isOpt := reachesCall(callee, 1, func(ci ssa.CallInstruction) bool {
+						nn, _ := calleeOf(ci)
+						return strings.HasSuffix(nn, ".PtraceSetOptions")
+					})
 					if (which == "set-options") == isOpt {
 						return avInt(esrch)
 					}
@@ -407,7 +410,9 @@ func errorWrapped(fn *ssa.Function, depth int) []string {
 					switch x := v.(type) {
 					case *ssa.Call:
 						n, callee := calleeOf(x)
-						if n == "fmt.Errorf" || n == "errors.New" || n == "errors.Join" {
+						isPrimitive := strings.HasPrefix(n, "syscall.") || strings.HasPrefix(n, "golang.org/x/sys/unix.") || strings.HasPrefix(n, "(syscall.") || strings.HasPrefix(n, "invoke:")
+						if (callee == nil || !inModule(callee)) && !isPrimitive && n != "dynamic" {
+							// any other library function returning an error builds a new error value around (or instead of) the errno
 							out = append(out, n+" in "+f.Name())
 						} else if callee != nil && inModule(callee) && d > 0 {
 							rec(callee, d-1)
